@@ -114,7 +114,7 @@ class StagingRig(object):
 
     def __init__(self, case, keep=False, hooks=None):
         '''
-        case : {'din': [directive], 'dout': [directive], 'oc': 'DONE'|'FAILED',
+        case : {'din': [directive], 'dout': [directive], 'oc': 'DONE'|'FAILED'|'CANCELED',
                 'soe': bool}     directive = {form, act, sk, sp, tk, tp}
         '''
         self.case      = case
@@ -138,8 +138,8 @@ class StagingRig(object):
 
     def tgt_str(self, d):
         k, p = d['tk'], d['tp']
-        if k == 'rel': return p
-        if k == 'abs': return '%s/%s' % (self.dirs['endpoint'], p)
+        if k in ('rel', 'relcwd', 'relcwddir'): return p
+        if k in ('abs', 'absfile'): return '%s/%s' % (self.dirs['endpoint'], p)
         if k == 'absdir': return '%s/%s' % (self.dirs['endpoint'], EXIST_DIR)
         if k == 'empty': return ''
         if k == 'endpoint': return 'endpoint://%s/%s' % (self.dirs['endpoint'], p)
@@ -223,6 +223,19 @@ class StagingRig(object):
         os.makedirs(os.path.join(self.dirs['endpoint'], EXIST_DIR))
         self.cwd = root + '/cwd'
         os.makedirs(self.cwd)
+        self.dirs['cwd'] = self.cwd     # working directory of all components (the agent's
+                                        # is the pilot sandbox in production: any directory)
+        # 'target exists already': a stale regular file at an absolute target,
+        # a same-named regular file in the working directory for a relative one
+        for d in self.case['din']:
+            if d['tk'] == 'relcwddir':      # ... or a same-named DIRECTORY there
+                os.makedirs(os.path.join(self.cwd, d['tp']), exist_ok=True)
+            top = {'absfile': 'endpoint', 'relcwd': 'cwd'}.get(d['tk'])
+            if top:
+                p = os.path.join(self.dirs[top], d['tp'])
+                os.makedirs(os.path.dirname(p), exist_ok=True)
+                with open(p, 'w') as fh:
+                    fh.write('stale:%s:%s' % (top, d['tp']))
         os.makedirs(root + '/tmp')      # the client stager's tar files (it leaks one per failed pack)
 
     def cleanup(self):
@@ -401,7 +414,12 @@ class StagingRig(object):
                 os.makedirs(os.path.dirname(p), exist_ok=True)
                 with open(p, 'w') as fh:
                     fh.write('task%s:%s' % (k, f))
-            t['target_state'] = rps.DONE if k == 'B' or self.case['oc'] == 'DONE' else rps.FAILED
+            # target_state as the executor sets it: from the exit code, or
+            # CANCELED by its cancel path while the task runs
+            oc = 'DONE' if k == 'B' else self.case['oc']
+            t['target_state'] = {'DONE': rps.DONE, 'FAILED': rps.FAILED,
+                                 'CANCELED': rps.CANCELED}[oc]
+            t['exit_code']    = {'DONE': 0, 'FAILED': 1, 'CANCELED': None}[oc]
             t['state']  = rps.AGENT_STAGING_OUTPUT_PENDING
             t['stdout'] = ''
             t['stderr'] = ''
